@@ -1,5 +1,21 @@
 // included in tr.rs — statements and functions
 
+/// `p` matches every value `q` matches (syntactic approximation, erring on the side of `false`)
+fn pat_covers(p: &Pat, q: &Pat) -> bool {
+    match (p, q) {
+        (Pat::Wild(_), _) => true,
+        (Pat::Ident(i), _) if i.subpat.is_none() && i.ident != "None" => true,
+        (Pat::Paren(a), _) => pat_covers(&a.pat, q),
+        (_, Pat::Paren(b)) => pat_covers(p, &b.pat),
+        (Pat::TupleStruct(a), Pat::TupleStruct(b)) => {
+            path_str(&a.path) == path_str(&b.path) && a.elems.len() == b.elems.len()
+                && a.elems.iter().zip(b.elems.iter()).all(|(x, y)| pat_covers(x, y))
+        }
+        (Pat::Tuple(a), Pat::Tuple(b)) => a.elems.len() == b.elems.len() && a.elems.iter().zip(b.elems.iter()).all(|(x, y)| pat_covers(x, y)),
+        _ => false,
+    }
+}
+
 fn ind(n: usize) -> String {
     "  ".repeat(n)
 }
@@ -61,7 +77,8 @@ impl<'w> Ctx<'w> {
                 // were written against, and the rewrites seen to introduce tuple lets (harmless/refactor-w-r3,
                 // -x-r1) are behaviour-preserving: leaving the subset keeps them on the correspondence tie
                 // instead of breaking a proof that could not be re-done automatically (DESIGN.md §3.5).
-                if std::env::var("R2L_TUPLE_LET").is_err() {
+                let ctrl_init = matches!(l.init.as_ref().map(|i| &*i.expr), Some(Expr::Match(_)) | Some(Expr::If(_)));
+                if ctrl_init && std::env::var("R2L_TUPLE_LET").is_err() {
                     return Err(format!("let pattern `{}`", l.pat.to_token_stream()));
                 }
                 let names: Vec<String> = match &l.pat {
@@ -543,9 +560,87 @@ impl<'w> Ctx<'w> {
         Ok(())
     }
 
+    /// `match sv { P if g => A, Q => B, .. }` in general: `| P => if g then A else (match sv with | Q => B ..)`,
+    /// the remaining arms being repeated after the guarded one (exact, at the price of duplicated text)
+    fn match_general(&mut self, sv: &str, ty: &Ty, arms: &[Arm], n: usize, tail: bool, aliases: &BTreeMap<String, Alias>, out: &mut Vec<String>) -> R<()> {
+        if arms.is_empty() {
+            return Err("match guard on the last arm without a fallback".into());
+        }
+        out.push(format!("{}match {} with", ind(n), sv));
+        for (ai, arm) in arms.iter().enumerate() {
+            // an arm wholly covered by the pattern of an earlier *guarded* arm is only reachable through
+            // that arm's fallback: at this level Lean would reject it as redundant
+            if arms[..ai].iter().any(|prev| prev.guard.is_some() && pat_covers(&prev.pat, &arm.pat)) {
+                continue;
+            }
+            let mut al = aliases.clone();
+            self.vars.push(BTreeMap::new());
+            let pat = self.pattern(&arm.pat, ty, None, &mut al);
+            let pat = match pat { Ok(p) => p, Err(e) => { self.vars.pop(); return Err(e); } };
+            out.push(format!("{}| {} =>", ind(n), pat));
+            for m in std::mem::take(&mut self.mut_pat_binds) {
+                out.push(format!("{}let mut {} := {}", ind(n + 1), m, m));
+            }
+            let mut body_at = |this: &mut Self, depth: usize, o: &mut Vec<String>| -> R<()> {
+                match &*arm.body {
+                    Expr::Block(b) => { o.extend(this.block(&b.block, depth, tail, &al)?); Ok(()) }
+                    other => {
+                        let mut al2 = al.clone();
+                        let before = o.len();
+                        this.expr_stmt(other, depth, tail, tail, &mut al2, o)?;
+                        if o.len() == before { o.push(format!("{}pure ()", ind(depth))); }
+                        Ok(())
+                    }
+                }
+            };
+            let res: R<()> = match &arm.guard {
+                None => body_at(self, n + 1, out),
+                Some((_, g)) => {
+                    match self.cond(g) {
+                        Err(e) => Err(e),
+                        Ok(c) => {
+                            self.flush_pre(n + 1, out);
+                            out.push(format!("{}if {} then", ind(n + 1), c.s));
+                            match body_at(self, n + 2, out) {
+                                Err(e) => Err(e),
+                                Ok(()) => {
+                                    out.push(format!("{}else", ind(n + 1)));
+                                    self.match_general(sv, ty, &arms[ai + 1..], n + 2, tail, aliases, out)
+                                }
+                            }
+                        }
+                    }
+                }
+            };
+            self.vars.pop();
+            res?;
+        }
+        Ok(())
+    }
+
     fn match_stmt(&mut self, m: &ExprMatch, n: usize, tail: bool, aliases: &mut BTreeMap<String, Alias>, out: &mut Vec<String>) -> R<()> {
         let (scrut, place) = self.scrutinee(&m.expr)?;
         self.flush_pre(n, out);
+        // guards outside the restricted form `P(x) if g => A, P(_) => B`: the general translation
+        let restricted = |i: usize| -> bool {
+            match (m.arms.get(i), m.arms.get(i + 1)) {
+                (Some(a), Some(nxt)) => match (&a.pat, &nxt.pat) {
+                    (Pat::TupleStruct(x), Pat::TupleStruct(y)) => path_str(&x.path) == path_str(&y.path)
+                        && y.elems.iter().all(|e| matches!(e, Pat::Wild(_))) && nxt.guard.is_none(),
+                    _ => false,
+                },
+                _ => false,
+            }
+        };
+        if m.arms.iter().enumerate().any(|(i, a)| a.guard.is_some() && !restricted(i)) {
+            if place.is_some() {
+                return Err("match guard on a `&mut` scrutinee".into());
+            }
+            let sv = self.fresh("scrut");
+            out.push(format!("{}let {} := {}", ind(n), sv, scrut.s));
+            let al = aliases.clone();
+            return self.match_general(&sv, &scrut.ty, &m.arms, n, tail, &al, out);
+        }
         // constants in patterns: an if-chain on equality (a Lean identifier pattern would be a binder)
         let has_const = m.arms.iter().any(|a| matches!(&a.pat, Pat::Ident(i) if self.w.consts.contains_key(&i.ident.to_string()))
             || matches!(&a.pat, Pat::Path(p) if self.w.consts.contains_key(&path_str(&p.path))));
@@ -745,7 +840,7 @@ impl World {
         let mut ctx = Ctx {
             w: self, vars: vec![BTreeMap::new()], widths: Rc::new(RefCell::new(vec![])), ivar_parent: Rc::new(RefCell::new(vec![])),
             pre: vec![], ret_ty: Ty::Unit, muts: vec![], generics: generics.clone(), fuel: opts.get("fuel").cloned(),
-            self_ty: ty_name.map(|s| s.to_string()), fresh: 0, val_mode: vec![], mut_pat_binds: vec![], loop_fin: vec![],
+            self_ty: ty_name.map(|s| s.to_string()), fresh: 0, val_mode: vec![], mut_pat_binds: vec![], loop_fin: vec![], used_step: false,
         };
         let mut params: Vec<String> = vec![];
         let mut rebinds: Vec<String> = vec![];
@@ -760,7 +855,7 @@ impl World {
                     let by_mut = r.reference.is_some() && r.mutability.is_some();
                     self_mut = by_mut;
                     ctx.bind("self", Ty::Named(tn.to_string()));
-                    params.push(format!("(self_ : {})", tn));
+                    params.push(format!("(self_ : {})", self.lean_ty(&Ty::Named(tn.to_string()))?));
                     sig_params.push((Ty::Named(tn.to_string()), by_mut));
                     if by_mut {
                         ctx.muts.push("self_".into());
@@ -829,6 +924,10 @@ impl World {
             text.push_str(l);
             text.push('\n');
         }
+        let used_step = ctx.used_step;
+        if used_step {
+            text = text.replacen(&format!("def {} ", lean_name), &format!("def {} {{γ : Type}} (step : γ → CurOp → γ × CurRes) ", lean_name), 1);
+        }
         let nvars = ctx.widths.borrow().len();
         for i in 0..nvars {
             let ph = format!("⟪W{}⟫", i);
@@ -842,7 +941,7 @@ impl World {
         drop(ctx);
         self.fns.insert(
             match ty_name { Some(t) => format!("{}.{}", t, name), None => name.to_string() },
-            FnSig { lean: lean_name, params: sig_params, ret: ret_inner, self_mut, has_self },
+            FnSig { lean: lean_name, params: sig_params, ret: ret_inner, self_mut, has_self, uses_step: used_step, ret_is_res: matches!(ret, Ty::Res(_)) },
         );
         Ok(text)
     }
